@@ -167,6 +167,13 @@ func (g *uciGen) goLine() (line string, selfEnds bool, ponder bool) {
 		}
 		return fmt.Sprint(pick(r, small))
 	}
+	// for arguments other than depth anything numeric-looking may be sent
+	wild := func(small []int) string {
+		if g.cfg.Extremes && r.IntN(6) == 0 {
+			return pick(r, []string{"-1", "-30", "-2147483649", "-9223372036854775808", "+5", "007", "1e3", "0x10", "abc", "12abc", "4.5"})
+		}
+		return num(small)
+	}
 	kind := r.IntN(10)
 	if g.cfg.Timed && r.IntN(3) != 0 {
 		kind = 5 + r.IntN(3)
@@ -190,13 +197,14 @@ func (g *uciGen) goLine() (line string, selfEnds bool, ponder bool) {
 		}
 		return "go depth " + d, len(d) == 1 && d[0] <= '5', false
 	case 3, 4:
-		n := num([]int{0, 1, 2, 5, 17, 100, 500, 1000, 3000, 8000, 100000})
-		return "go nodes " + n, len(n) <= 4, false
+		n := wild([]int{0, 1, 2, 5, 17, 100, 500, 1000, 3000, 8000, 100000})
+		return "go nodes " + n, len(n) <= 4 && n[0] != '-', false
 	case 5:
-		return "go movetime " + num([]int{1, 2, 10, 50, 200, 1000, 60000}), true, false
+		mt := wild([]int{1, 2, 10, 50, 200, 1000, 60000})
+		return "go movetime " + mt, mt[0] >= '1' && mt[0] <= '9' && len(mt) < 6, false
 	case 6, 7:
-		w := num([]int{1, 5, 29, 30, 31, 60, 61, 100, 1000, 10000, 300000})
-		b := num([]int{1, 5, 29, 30, 31, 60, 61, 100, 1000, 10000, 300000})
+		w := wild([]int{1, 5, 29, 30, 31, 60, 61, 100, 1000, 10000, 300000})
+		b := wild([]int{1, 5, 29, 30, 31, 60, 61, 100, 1000, 10000, 300000})
 		s := fmt.Sprintf("go wtime %s btime %s", w, b)
 		if r.IntN(2) == 0 {
 			s += fmt.Sprintf(" winc %s binc %s", num([]int{0, 1, 100, 2000}), num([]int{0, 1, 100, 2000}))
